@@ -282,6 +282,19 @@ func av1Corpus(c *corr.Ctx) {
 		long = append(long, &rtp.Packet{Header: rtp.Header{Version: 2, SequenceNumber: uint16(i)}, Payload: append([]byte{0x50}, fill(10000, byte(i))...)})
 	}
 	cu.HostileStream(c, Av1, inst, long, false, "av1-corpus-zy-long", "Z=0,Y=1 repeated, 700 x 10000 bytes")
+	// endless complete single-OBU packets (W=1, Z=Y=0) WITHOUT a marker, with the N bit or one of the
+	// reserved bits of the aggregation header set, then one marker packet: whatever a decoder does with
+	// those bits, the temporal unit under construction stays capped (added after seeded change
+	// C08-r6-1 — an N-bit handler that reset the counters but kept the buffer — was first caught by the
+	// correspondence only)
+	for _, bits := range []byte{0x08, 0x04, 0x02, 0x01, 0x0f} {
+		var run []*rtp.Packet
+		for i := 0; i < 6200; i++ {
+			run = append(run, &rtp.Packet{Header: rtp.Header{Version: 2, SequenceNumber: uint16(i), Timestamp: 1000, Marker: i == 6199},
+				Payload: append([]byte{0x10 | bits}, fill(1200, byte(i))...)})
+		}
+		cu.HostileStream(c, Av1, inst, run, false, fmt.Sprintf("av1-corpus-hdrbits-%02x", bits), "W=1 complete OBUs, no marker, N / reserved bits set, 6200 x 1200 bytes")
+	}
 }
 
 // StaleInput is the replayable description of an av1StaleCase.
